@@ -21,6 +21,9 @@ enum Form {
 
 #[derive(Clone, Copy, PartialEq, Eq, Debug)]
 enum FItem {
+    /// sts / lds: two words, one word on the reduced core (only used there)
+    Sts,
+    Lds,
     Nop,
     Jmp,
     Dw,
@@ -30,11 +33,13 @@ enum FItem {
 }
 
 const FITEMS: [FItem; 6] = [FItem::Nop, FItem::Jmp, FItem::Dw, FItem::Db1, FItem::Db3, FItem::Gap3];
+/// on the reduced core (ATtiny20: no jmp) the two-word item is replaced by the one-word sts / lds
+const FITEMS_REDUCED: [FItem; 6] = [FItem::Nop, FItem::Sts, FItem::Lds, FItem::Db1, FItem::Db3, FItem::Gap3];
 
 impl FItem {
     fn words(self) -> i64 {
         match self {
-            FItem::Nop | FItem::Dw | FItem::Db1 => 1,
+            FItem::Nop | FItem::Dw | FItem::Db1 | FItem::Sts | FItem::Lds => 1,
             FItem::Jmp | FItem::Db3 => 2,
             FItem::Gap3 => 3,
         }
@@ -42,6 +47,24 @@ impl FItem {
 }
 
 /// all sequences of length <= 4 over the six filler items
+fn filler_seqs_of(items: &[FItem; 6]) -> Vec<Vec<FItem>> {
+    let mut out: Vec<Vec<FItem>> = vec![vec![]];
+    let mut frontier: Vec<Vec<FItem>> = vec![vec![]];
+    for _ in 0..4 {
+        let mut next = vec![];
+        for s in &frontier {
+            for it in items.iter() {
+                let mut t = s.clone();
+                t.push(*it);
+                next.push(t);
+            }
+        }
+        out.extend(next.iter().cloned());
+        frontier = next;
+    }
+    out
+}
+
 fn filler_seqs() -> Vec<Vec<FItem>> {
     let mut out: Vec<Vec<FItem>> = vec![vec![]];
     let mut frontier: Vec<Vec<FItem>> = vec![vec![]];
@@ -88,6 +111,8 @@ impl Prog {
             }
             match it {
                 FItem::Nop => self.line("nop", 1),
+                FItem::Sts => self.line("sts 0x60, r16", 1),
+                FItem::Lds => self.line("lds r17, 0x61", 1),
                 FItem::Jmp => self.line("jmp 0x1234", 2),
                 FItem::Dw => self.line(".dw 0x5a5a", 1),
                 FItem::Db1 => self.line(".db 1", 1),
@@ -156,6 +181,8 @@ fn make(k: &Kind, form: Form, base: usize, d: i64, seq: &[FItem], mode: u64) -> 
     let mut p = Prog::new();
     match base {
         0 => {}
+        // the reduced-core device: lds/sts are one word there in both passes
+        4 => p.src.push_str(".device ATtiny20\n"),
         1 => {
             for _ in 0..5 {
                 p.line("nop", 1);
@@ -223,6 +250,7 @@ pub fn run(tier: Tier) -> i32 {
     let rep = Report::new("C03", tier, "exploration");
     isa::self_check().unwrap_or_else(|e| machinery_fail(&format!("ISA reference self-check failed: {}", e)));
     let seqs = filler_seqs();
+    let seqs_reduced = filler_seqs_of(&FITEMS_REDUCED);
     let kinds = kinds();
     let forms = [Form::FwdLabel, Form::BwdLabel, Form::PcRel, Form::Abs];
     let per_case = if tier.thorough() { 6u64 } else { 2 };
@@ -253,6 +281,13 @@ pub fn run(tier: Tier) -> i32 {
                     work.push((ki, f, base, *d));
                 }
             }
+            // branches on the reduced-core device (within its 1 K words; no wrap-around question
+            // arises for 7-bit displacements)
+            if k.hi == 63 {
+                for d in -70..=70 {
+                    work.push((ki, f, 4, d));
+                }
+            }
         }
     }
     let evals = AtomicU64::new(0);
@@ -270,12 +305,15 @@ pub fn run(tier: Tier) -> i32 {
             let h = (wi as u64).wrapping_mul(0x9e3779b97f4a7c15).wrapping_add(rep_i.wrapping_mul(0x632be59bd9b4e019));
             let si = ((wi as u64 * per_case + rep_i) % seqs.len() as u64) as usize;
             let mode = h >> 33;
-            let b = match make(k, *form, *base, *d, &seqs[si], mode) {
+            let seq = if *base == 4 { &seqs_reduced[si % seqs_reduced.len()] } else { &seqs[si] };
+            let b = match make(k, *form, *base, *d, seq, mode) {
                 Some(b) => b,
                 None => continue,
             };
             any = true;
-            local_seqs.push(si);
+            if *base != 4 {
+                local_seqs.push(si);
+            }
             let o = sut::build_str(&b.src);
             evals.fetch_add(1, Ordering::Relaxed);
             let fits = *d >= k.lo && *d <= k.hi;
@@ -376,13 +414,13 @@ pub fn run(tier: Tier) -> i32 {
     for s in samples.into_inner().unwrap() {
         rep.sample(|| s);
     }
-    rep.assume("default device only: wrap-around jumps on 4K-word devices are an AVRASM extension the statement does not claim");
+    rep.assume("rjmp/rcall on the default device only: wrap-around jumps on small devices are an AVRASM extension the statement does not claim; branches are also placed on ATtiny20");
     rep.assume("absolute numeric targets below 0 are not generated");
     let coverage = cov(json!({
         "evaluations": evals.load(Ordering::Relaxed),
         "distinct_nontrivial": distinct_cases.load(Ordering::Relaxed),
         "far_distances": "2^p + {-2..2}, p in 7,8,12,13,15,16,17,21,22, both signs",
-        "rule": "36 instruction kinds (18 named branches, brbs/brbc x 8 flags, rjmp, rcall) x 4 target forms (forward label, backward label, pc-relative, absolute) x 4 base placements x every distance in the windows (branches -70..70; rjmp/rcall -2056..-2040,-8..8,2040..2056 quick / -2100..2100 thorough) x rotating filler sequences (all 1555 sequences of <=4 items over nop, jmp, .dw, odd .db, 3-byte .db, .org gap are used); distinct_nontrivial = distinct constructible (kind, form, base, distance) combinations",
+        "rule": "36 instruction kinds (18 named branches, brbs/brbc x 8 flags, rjmp, rcall) x 4 target forms (forward label, backward label, pc-relative, absolute) x 4 base placements (+ for branches the reduced-core device ATtiny20 with one-word lds/sts among the fillers) x every distance in the windows (branches -70..70; rjmp/rcall -2056..-2040,-8..8,2040..2056 quick / -2100..2100 thorough) x rotating filler sequences (all 1555 sequences of <=4 items over nop, jmp, .dw, odd .db, 3-byte .db, .org gap are used); distinct_nontrivial = distinct constructible (kind, form, base, distance) combinations",
         "exhaustive": true,
         "filler_sequences_used": used,
         "outcomes": {"ok": n_ok.load(Ordering::Relaxed), "err": n_err.load(Ordering::Relaxed)},
